@@ -53,12 +53,16 @@ def evaluateOpt (I : HMap M) : Option Parser → M → M
   | none, m => m
   | some p, m => evaluate I p m
 
+/-- the regenerated level order of a direction -/
+def orderOf : Gen.HeaderWiring.Dir → List Level
+  | .request => requestOrder
+  | .response => responseOrder
+
 open MosnVerif.Model.HeaderWiring MosnVerif.Gen.HeaderWiring in
 /-- `Finalize{Request,Response}Headers` of a rule built by `router.NewRouters` FROM CONFIGURATION `c` (regenerated wiring
 table, nil rule and level order), on protocol map `I` -/
 def finalizeBuilt (I : HMap M) (c : Config) (d : Dir) (m : M) : M :=
-  (match d with | .request => requestOrder | .response => responseOrder).foldl
-    (fun m lv => evaluateOpt I (builtParser parserWiring c lv d) m) m
+  (orderOf d).foldl (fun m lv => evaluateOpt I (builtParser parserWiring c lv d) m) m
 
 /-- all values the map shows under name `k` (in the map's order) -/
 def vals (I : HMap M) (m : M) (k : String) : List String :=
@@ -280,13 +284,16 @@ def fhGet (kind : FhKind) (m : Fh) (k : String) : Option String :=
       if s == "" then none else some s
   else (m.h.find? (·.1 == nk)).map (·.2)
 
+/-- a dedicated field is shown when it is not empty -/
+def fhShowSingle (g : String → Option String) (k : String) : Option (String × String) :=
+  match g k with
+  | some v => if v == "" then none else some (k, v)
+  | none => none
+
 /-- `VisitAll` (= the wrapper's `Range`), which is also what the printed header carries: non-empty dedicated fields,
 the cookies (request: one joined line, collecting them first; response: one line each), then the ordinary lines -/
 def fhRange (kind : FhKind) (m : Fh) : List (String × String) :=
-  let singles := kind.singles.filterMap (fun k =>
-    match fhSingle kind m k with
-    | some v => if v == "" then none else some (k, v)
-    | none => none)
+  let singles := kind.singles.filterMap (fhShowSingle (fhSingle kind m))
   match kind with
   | .request =>
     let m := fhCollect m
